@@ -205,6 +205,12 @@ def _helper_requests(p, kv, tier):
                     out.append((kl, add, d))
     out.append(([], [ADD[1], ADD[1]], 1))
     out.sort(key=lambda t: (len(t[0]) + len(t[1]), t[2]))
+    # the documented default knot list (every knot of the domain, repeated ones included) with and without the documented
+    # option check_num=False
+    for d in dens:
+        out.append((['__default__'], [], d))
+        out.append((['__default__', '__nocheck__'], [], d))
+        out.append((['__default__', '__nocheck__'], [ADD[0]], d))
     return out
 
 
@@ -221,6 +227,13 @@ def _helper_one(ctx, case, desc, a, p, kv, rows_form, ctrl, build_def, d_orig, s
     """one call of helpers.knot_refinement; ctrl = control points in the form handed to the helper"""
     from geomdl import helpers
     from geomdl.exceptions import GeomdlException
+    opts = {}
+    default_list = '__default__' in kl
+    if '__nocheck__' in kl:
+        opts['check_num'] = False
+    if default_list:
+        kl_marker = list(kl)
+        kl = [float(k) for k in kv[p:len(kv) - p]]          # what the helper takes when no knot list is given
     req = sorted(set(kl + add))
     final = _bisect([F(x) for x in req], dens) if len(req) > 1 else [F(x) for x in req]
     U0 = [F(x) for x in kv]
@@ -237,7 +250,8 @@ def _helper_one(ctx, case, desc, a, p, kv, rows_form, ctrl, build_def, d_orig, s
                  n_knot_list=len(kl), n_add=len(add), n_requested=len(req), density=dens,
                  form='rows' if rows_form else 'points', nothing_to_insert=all(r <= 0 for _, r in need),
                  on_existing_knot=any(0 < r < p for _, r in need))
-    rc = dict(kind='helper', shape=desc, only=dict(dir=a, knot_list=list(kl), add=list(add), density=dens))
+    rc = dict(kind='helper', shape=desc, only=dict(dir=a, knot_list=list(kl_marker if default_list else kl), add=list(add), density=dens))
+    feats.update(default_knot_list=default_list, check_num=opts.get('check_num', True))
     # The point lists handed to the helper are usually the point lists of a live shape: their coordinates must not move
     # (otherwise refining through the helper changes the source shape).  Row containers of the rows-of-points form are
     # scratch lists of the caller and are not judged.
@@ -245,7 +259,10 @@ def _helper_one(ctx, case, desc, a, p, kv, rows_form, ctrl, build_def, d_orig, s
     leaf_vals = [list(x) for x in leaves]
     kv_arg, kl_arg, add_arg = list(kv), list(kl), list(add)
     try:
-        new_cp, new_kv = helpers.knot_refinement(p, kv_arg, ctrl, knot_list=kl_arg, add_knot_list=add_arg, density=dens)
+        if default_list:
+            new_cp, new_kv = helpers.knot_refinement(p, kv_arg, ctrl, add_knot_list=add_arg, density=dens, **opts)
+        else:
+            new_cp, new_kv = helpers.knot_refinement(p, kv_arg, ctrl, knot_list=kl_arg, add_knot_list=add_arg, density=dens, **opts)
         ctx.check('C05.helper.input_points_unchanged', all(list(x) == v for x, v in zip(leaves, leaf_vals)) and
                   kv_arg == list(kv), rc, feats, 'coordinates of the input points and the knot vector argument unchanged', None)
     except GeomdlException as e:
